@@ -685,3 +685,16 @@ for _u in _c19["UNITS"]:
         _u.template = "../C19/" + _u.template
         UNITS.append(_u)
 META["trusted_base"] = list(META.get("trusted_base", [])) + ["units c19.loop.* are the C19 units of the same name (specs/C19/loop_iter.c) with their trusted base"]
+
+
+# ---- C12 units reused: the placement request (schedule hint, priority, scheduler) of a STAGED task travels by value inside
+# ---- thread_init_data (move constructor / move assignment out of the staged queues): it must arrive unchanged
+_c12 = {"UNITS": [], "VX_NO_REUSE": True}
+if not globals().get("VX_NO_REUSE"):
+    exec(compile(open("/verif/specs/C12/spec.py").read(), "/verif/specs/C12/spec.py", "exec"), _c12)
+for _u in _c12["UNITS"]:
+    if _u.name.startswith("initdata."):
+        _u.name = "c12." + _u.name
+        _u.template = "../C12/" + _u.template
+        UNITS.append(_u)
+META["trusted_base"] = list(META.get("trusted_base", [])) + ["units c12.initdata.* are the C12 units of the same name (specs/C12/initdata.c)"]
